@@ -177,7 +177,7 @@ def parse_directive(block):
         s = ln.strip()
         if not s:
             continue
-        mm = re.match(r"(rewrite(?:_re)?\*?)\s+(\w+)\s+(" + _STR + r")\s*=>\s*(" + _STR + r")\s*$", s)
+        mm = re.match(r"(rewrite(?:_re)?[*?]?)\s+(\w+)\s+(" + _STR + r")\s*=>\s*(" + _STR + r")\s*$", s)
         if mm:
             d["rewrites"].append({"op": mm.group(1), "rule": mm.group(2), "old": _unq(mm.group(3)), "new": _unq(mm.group(4))})
             continue
@@ -231,16 +231,19 @@ def apply_rewrites(text, d, log, where):
         text = _apply_format_err(text, log)
     for rw in d["rewrites"]:
         op = rw["op"]
-        many = op.endswith("*")
+        optional = op.endswith("?")   # zero matches allowed (alternative spellings of one construct)
+        many = op.endswith("*") or optional
+        if optional:
+            op = op[:-1]
         if op.startswith("rewrite_re"):
             rx = re.compile(rw["old"], re.S)
             n = len(rx.findall(text))
-            if n == 0 or (n != 1 and not many):
+            if (n == 0 and not optional) or (n != 1 and not many):
                 raise AssembleError("rule %s anchor lost in %s: /%s/ matched %d times" % (rw["rule"], where, rw["old"], n))
             new = rx.sub(rw["new"], text)
         else:
             n = text.count(rw["old"])
-            if n == 0 or (n != 1 and not many):
+            if (n == 0 and not optional) or (n != 1 and not many):
                 raise AssembleError("rule %s anchor lost in %s: %r occurs %d times" % (rw["rule"], where, rw["old"], n))
             new = text.replace(rw["old"], rw["new"])
         log.append({"rule": rw["rule"], "fn": where, "from": rw["old"], "to": rw["new"], "count": n})
@@ -398,11 +401,17 @@ def assemble_text(src, canary, repo, line0):
     items = []
     includes = []
     pos = 0
-    rx = re.compile(r"^//@include[ \t]+(\S+)[ \t]*$|/\*@extract[ \t]+(.*?)@\*/", re.S | re.M)
+    rx = re.compile(r"^//@include[ \t]+(\S+)[ \t]*$|/\*@extract[ \t]+(.*?)@\*/|^//@generate[ \t]+(\w+)[ \t]*$", re.S | re.M)
     for m in rx.finditer(src):
         out_parts.append(src[pos:m.start()])
         pos = m.end()
-        if m.group(1):
+        if m.group(3):
+            import generators
+            try:
+                out_parts.append(generators.GENERATORS[m.group(3)]())
+            except generators.GenError as e:
+                raise AssembleError("generator %s: %s" % (m.group(3), e))
+        elif m.group(1):
             p = os.path.join(VERIF, m.group(1))
             includes.append(m.group(1))
             sub, info = assemble_text(open(p).read(), canary, repo, line0 + "".join(out_parts).count("\n"))
